@@ -5,8 +5,8 @@
    cache theorems hold for every scalar instance.
    Pairs are (phase fraction, phase mobility) for one element; [pos_pair]: fraction >= 0 and
    mobility defined (> 0); [sumF]: sum of the fractions. *)
-From Coq Require Import Reals List Arith Permutation.
-Require Import Kawin.Common.Ops Kawin.Common.Vec Kawin.Common.VecLemmas Kawin.C17.Model Kawin.C17.Proofs.
+From Coq Require Import Reals QArith Qreals List Arith Permutation.
+Require Import Kawin.Common.Ops Kawin.Common.Vec Kawin.Common.VecLemmas Kawin.C17.Model Kawin.C17.Proofs Kawin.C17.Hom.
 Import ListNotations.
 Open Scope R_scope.
 
@@ -156,3 +156,26 @@ Theorem C17_eval_twice_same (O : Ops) tiny maxf backend e hist o k :
                    /\ v = homogenize O tiny maxf e o (backend k) /\ length before = length hist.
 Proof. exact (eval_twice_same O tiny maxf backend e hist o k). Qed.
 Print Assumptions C17_eval_twice_same.
+
+(* the exact-rational instance that vm_compute executes in the correspondence check computes the
+   values of the real-number model the theorems above are about (fractions >= 0 summing to one,
+   defined mobilities) ... *)
+Theorem C17_exec_is_model fm : Forall pos_pairQ fm -> (sumT Qops (map fst fm) == 1)%Q ->
+  Q2R (wienerLowerP Qops fm) = wienerLowerP Rops (map q2r_pair fm) /\
+  Q2R (hsLowerP Qops fm) = hsLowerP Rops (map q2r_pair fm) /\
+  Q2R (hsUpperP Qops fm) = hsUpperP Rops (map q2r_pair fm) /\
+  Q2R (wienerUpperP Qops fm) = wienerUpperP Rops (map q2r_pair fm) /\
+  Q2R (minOf Qops (map snd fm)) = minM (map q2r_pair fm) /\
+  Q2R (maxOf Qops (map snd fm)) = maxM (map q2r_pair fm).
+Proof. exact (rules_Q2R fm). Qed.
+Print Assumptions C17_exec_is_model.
+
+(* ... so the ordering holds for the rational numbers it produces *)
+Theorem C17_bounds_ordered_exec fm : Forall pos_pairQ fm -> (sumT Qops (map fst fm) == 1)%Q ->
+  (minOf Qops (map snd fm) <= wienerLowerP Qops fm)%Q /\
+  (wienerLowerP Qops fm <= hsLowerP Qops fm)%Q /\
+  (hsLowerP Qops fm <= hsUpperP Qops fm)%Q /\
+  (hsUpperP Qops fm <= wienerUpperP Qops fm)%Q /\
+  (wienerUpperP Qops fm <= maxOf Qops (map snd fm))%Q.
+Proof. exact (bounds_ordered_Q fm). Qed.
+Print Assumptions C17_bounds_ordered_exec.
